@@ -93,11 +93,13 @@ def run(tier, seed):
             # (a header with a lot of metadata: the mandatory fields then lie across byte 1024, in the part of a long
             # header that is read second)
             lead = ["note_%03d -s10 abcdefghij" % j for j in range(37 + k % 5)] if hs_ >= 1536 and k % 3 != 1 else []
+            if k % 4 == 2:
+                lead = lead[: max(0, len(lead) - 2)] + ["snr -r 35.25", "recording_level -r -3.5"]  # (real-valued fields are legal too)
             if F % 2 == 0 and k % 3 != 2:
                 nchan, coding, bf = F // 2, "pcm", ("01", "10")[k % 2]
                 # (sample_coding defaults to pcm: headers written without it - TIMIT's, for one - are well-formed)
                 hdr = sph_util.header(nchan, promised, 2, bf, "pcm", HEADER_SIZES[(k // 2) % len(HEADER_SIZES)],
-                                      omit=("sample_coding",) if k % 4 == 3 else (), lead=lead, trail=("", " ", "  ")[k % 3])
+                                      omit=("sample_coding",) if k % 4 == 3 else (), lead=lead, trail=("", " ", "  ")[k % 3], fill=(b" ", b"\x00", b"\xff", b"\n", b"\x80")[k % 5])
                 used = raw[: frames * F].tobytes()
                 want = np.frombuffer(used, dtype="<i2" if bf == "01" else ">i2").astype(np.int16)
                 dtype_arg = None
@@ -108,7 +110,7 @@ def run(tier, seed):
                 nchan, coding = F, ("ulaw", "alaw")[k % 2]
                 # (sample_byte_format says nothing about one-byte samples and may be absent)
                 hdr = sph_util.header(nchan, promised, 1, "1", coding, HEADER_SIZES[(k // 2) % len(HEADER_SIZES)],
-                                      omit=("sample_byte_format",) if k % 4 == 1 else (), lead=lead, trail=("", " ", "  ")[k % 3])
+                                      omit=("sample_byte_format",) if k % 4 == 1 else (), lead=lead, trail=("", " ", "  ")[k % 3], fill=(b" ", b"\x00", b"\xff", b"\n", b"\x80")[k % 5])
                 codes = raw[: frames * F]
                 dtype_arg = (np.uint8, np.int8)[(k // 5) % 2] if k % 5 == 0 else None  # a 1-byte dtype: the raw codes
                 want = codes.astype(dtype_arg) if dtype_arg is not None else (ulaw if coding == "ulaw" else alaw)[codes]
